@@ -57,6 +57,7 @@ class Outcome:
         self.san_reports = {"attributed": 0, "unattributed": 0}
         self.extra_lines = []  # other @@ lines (e.g. @@LOG for offline checkers)
         self.first_timeout = None  # description of a first attempt that timed out (the case was re-run once)
+        self.tsan_runtime_crash = False  # libtsan died by itself: the case is dropped, counted in the evidence
 
 
 def san_env(flavour, logbase):
@@ -219,6 +220,14 @@ def run_one(hdirs, case, attribute_re, idx, prop):
             out.violations.append(kv)
     elif out.rc == 66 and case.flavour == "tsan" and out.result is not None:
         pass  # TSan's "reports were printed" exit code; the reports themselves were classified above
+    elif case.flavour == "tsan" and tsan_runtime_crash(santext_all):
+        # libtsan itself died (SEGV inside the TSan runtime, typically hashing its shadow call stack): pika's context switch
+        # has no TSan fiber annotations, so the per-OS-thread shadow stack drifts whenever tasks migrate and eventually
+        # overflows.  A tool failure is not a verdict about pika: the case is dropped from this run, counted and printed.  The
+        # same scenario always also runs on the plain (and mostly the ASan) flavour, where a real crash shows as such.
+        out.tsan_runtime_crash = True
+        out.violations = [v for v in out.violations if ":sanitizer:" in v[0]]
+        sys.stderr.write("[%s] NOTE libtsan crashed by itself (DEADLYSIGNAL inside the TSan runtime), case dropped: %s %s\n" % (prop, case.exe, " ".join(case.args)))
     elif out.rc != 0 and not any(":sanitizer:" in k for k, _ in out.violations):
         if out.result is None or out.rc < 0 or out.rc > 2:
             out.violations.append(("%s:crash:%s:%s" % (prop, case.cls, signame(out.rc)),
@@ -233,6 +242,21 @@ def run_one(hdirs, case, attribute_re, idx, prop):
     elif case.expect_exit is None and not out.violations:
         out.inconclusive.append("no @@RESULT line (rc=%s) stderr tail: %s" % (out.rc, out.stderr[-400:]))
     return out
+
+
+def tsan_runtime_crash(text):
+    """True if the process was killed by a fault INSIDE the TSan runtime: 'ThreadSanitizer:DEADLYSIGNAL' and either no stack
+    could be printed (nested fault) or the innermost frames of the faulting stack are libtsan's own."""
+    if "ThreadSanitizer:DEADLYSIGNAL" not in text:
+        return False
+    i = text.find("ERROR: ThreadSanitizer: SEGV")
+    if i < 0:
+        return True  # "nested bug in the same thread, aborting": nothing printable
+    frames = re.findall(r"^\s+#(\d+) (.*)$", text[i:i + 6000], re.M)
+    inner = [f for n, f in frames if int(n) <= 2]
+    if not inner:
+        return True
+    return all(("libtsan" in f or "__sanitizer::" in f or "__tsan" in f) for f in inner)
 
 
 def run_cases(prop, cases, attribute=None, progress=True):
@@ -382,6 +406,7 @@ def finish(prop, tier, seed, t0, outcomes, rule, required_bits=(), extra_cov=Non
         "known_findings_printed": sorted(set(k for k, _ in printed_known)),
         "violation_keys": [k for k, _, _ in new],
         "first_attempt_timeouts": [o.first_timeout for o in outcomes if o is not None and o.first_timeout][:10],
+        "tsan_runtime_crashes_dropped": sum(1 for o in outcomes if o is not None and o.tsan_runtime_crash),
     }
     if extra_cov:
         cov.update(extra_cov)
